@@ -84,12 +84,13 @@ class BranchingList:
         """
         if not self.state:
             return False
-        # count number of true cases
-        branch = self._get_branch_id()
-        num_true = sum([self.cases[c].value==True for c in self.branches[branch].cases])
-        # only first `true` case is valid
-        case = self._get_case_id()
-        return num_true!=1 or self.cases[case].value == False
+        # every open branch (not only the innermost one) has to be in its first `true` case
+        for branch in self.state:
+            cases = self.branches[branch].cases
+            num_true = sum([self.cases[c].value==True for c in cases])
+            if num_true!=1 or self.cases[cases[-1]].value == False:
+                return True
+        return False
         
     def solve_case(self, node):
         """ Manage condition nodes
